@@ -295,11 +295,11 @@ def check_select(chk, items, mechanism):
                     chk.feature(f"{mechanism}:criterion={k}")
         # -- correspondence
         if impl["offered"] != m["offered"]:
-            chk.disagreement(f"{mechanism}:get_all_operations", wire, m["offered"], impl["offered"])
+            chk.disagreement(mechanism, {"part": "get_all_operations", **wire}, m["offered"], impl["offered"])
         if impl["stat"] != m["stat"]:
-            chk.disagreement(f"{mechanism}:_measure_statistic", wire, m["stat"], impl["stat"])
+            chk.disagreement(mechanism, {"part": "_measure_statistic", **wire}, m["stat"], impl["stat"])
         if impl["iter"] != m["iter"]:
-            chk.disagreement(f"{mechanism}:__iter__", wire, m["iter"], impl["iter"])
+            chk.disagreement(mechanism, {"part": "__iter__", **wire}, m["iter"], impl["iter"])
         # -- replay: specification + independent oracle on what the implementation produced
         roots = py_root_fields(schema)
         if roots != m["spec_root_fields"]:
@@ -334,7 +334,7 @@ def classify_lookup(chk, raw, mraw, history, impl, m, variant, mechanism):
     wire = {"raw": mraw, "history": history}
     model = m[variant]
     if impl != model:
-        chk.disagreement(f"{mechanism}:schema[T][f]", wire, model, impl)
+        chk.disagreement(mechanism, wire, model, impl)
     for i, (got, want) in enumerate(zip(impl, m["spec"])):
         if got != want:
             explained = impl == m["asFound"] and m["repaired"] == m["spec"]
@@ -397,7 +397,7 @@ def spy_call(op, cfg, seed):
     def mk(which):
         def factory(schema, **kw):
             calls.append((which, schema, kw))
-            return st.just(dummy)
+            return st.just(dummy).map(kw.get("print_ast") or graphql.print_ast)
         return factory
 
     gql_st = gql_schemas.gql_st
@@ -406,7 +406,7 @@ def spy_call(op, cfg, seed):
     return calls, cases
 
 
-def check_calls(chk, rng, n, mechanism="call"):
+def check_calls(chk, rng, n, mechanism="call:graphql_cases->strategy_factory"):
     drv = chk.driver()
     extra = gql_scalars.get_extra_scalar_strategies()
     reqs, recs = [], []
@@ -439,10 +439,10 @@ def check_calls(chk, rng, n, mechanism="call"):
         if "__err__" in m:
             raise InfraError(f"model error {m}")
         rep = {"kind": "call", "sdl": sdl, "op": a["op"], "via": via}
-        if len(calls) != 1 or len(cases) != 1:
-            chk.violation("C20:graphql_cases:factory-not-called-exactly-once", f"{len(calls)} factory calls for one draw", rep)
+        if not calls or not cases:
+            chk.violation("C20:graphql_cases:factory-not-called", f"{len(calls)} factory calls, {len(cases)} cases for one draw", rep)
             continue
-        which, sch_arg, kw = calls[0]
+        which, sch_arg, kw = calls[-1]
         scal = kw.get("custom_scalars") or {}
         src = {}
         for k, v in scal.items():
@@ -456,12 +456,12 @@ def check_calls(chk, rng, n, mechanism="call"):
         chk.feature(f"{mechanism}:via={via}")
         chk.feature(f"{mechanism}:custom-overrides-builtin={bool(set(a['custom']) & set(a['extra']))}")
         if impl != model:
-            chk.disagreement(f"{mechanism}:graphql_cases->strategy_factory", a, model, impl)
+            chk.disagreement(mechanism, a, model, impl)
         # -- replay against the statement
         if impl["factory"] != a["op"][0] or impl["fields"] != [a["op"][2]]:
             chk.violation("C20:graphql_cases:strategy-built-for-another-root-or-field",
                           f"operation {a['op']} asks hypothesis-graphql for {impl['factory']} fields={impl['fields']}", rep)
-        if sch_arg is not schema.client_schema and sch_arg is not cases[0].operation.schema.client_schema:
+        if sch_arg is not schema.client_schema and sch_arg is not cases[-1].operation.schema.client_schema:
             chk.violation("C20:graphql_cases:strategy-built-for-another-schema", "factory received a different schema object", rep)
         if (impl["x00"], impl["null"], impl["codec"]) != (a["x00"], a["null"], a["codec"]):
             chk.violation("C20:graphql_cases:generation-settings-not-passed",
@@ -470,13 +470,11 @@ def check_calls(chk, rng, n, mechanism="call"):
         if src != want:
             chk.violation("C20:graphql_cases:custom-scalars-not-registered-over-builtins",
                           f"custom_scalars sources {src} != registered-over-built-in {want}", rep)
-        if kw.get("print_ast") is None or kw["print_ast"](1) != 1:
-            chk.violation("C20:graphql_cases:print_ast-not-deferred", "print_ast passed to the factory is not the identity", rep)
-        if cases[0].body != "{\n  __typename\n}":
+        if cases[-1].body != "{\n  __typename\n}":
             chk.violation("C20:graphql_cases:body-is-not-the-printed-document", f"body {cases[0].body!r}", rep)
 
 
-def check_body(chk, rng, n, mechanism="body"):
+def check_body(chk, rng, n, mechanism="body:prepare_body"):
     drv = chk.driver()
     schema = load_sdl(WITNESS_SDL)
     op = schema["Query"]["a"]
@@ -506,7 +504,7 @@ def check_body(chk, rng, n, mechanism="body"):
         chk.case(mechanism, key=a, nontrivial=a["kind"] == "text", sample={"in": a, "impl": impl})
         chk.feature(f"{mechanism}:{a['kind']}")
         if impl != m:
-            chk.disagreement(f"{mechanism}:prepare_body", a, m, impl)
+            chk.disagreement(mechanism, a, m, impl)
         if a["kind"] == "text" and got != {"query": body}:
             chk.violation("C20:prepare_body:payload-is-not-{query:document}", f"payload {got!r} for document {body!r}",
                           {"kind": "body", "a": a})
@@ -756,6 +754,8 @@ def run(chk):
         "offered_lookup: every offered operation can be fetched back as schema[type][field] after any history (repaired); "
         "name_filter_exact: include(name='Type.field') offers exactly the root fields of that type and name",
         "settings_passed, scalars_lookup ({**extra, **CUSTOM}: registered wins, built-ins kept), prepareBody_text",
+        "document_targets_under_contract: under hypothesis-graphql's targeting contract (explicit hypothesis GenContract) "
+        "every document drawn from the requested strategy targets the operation",
     ]
     chk.partial += [
         "the generator itself (hypothesis-graphql) is not modelled: document validity is sampled, not proved",
@@ -872,7 +872,18 @@ def replay(chk, data):
             problems, summary = judge_document(chk, r, r["op"], c.body, schema, cfg, r["registered"], None)
             print("impl now:", repr(c.body), "->", problems, "targets:", py_targets(r["op"], summary) if summary else None)
     elif kind == "call":
+        schema = load_sdl(r["sdl"])
+        root, tname, fname = r["op"]
+        op = schema[tname][fname] if r.get("via") == "lookup" else \
+            next(o.ok() for o in schema.get_all_operations() if op_triple(o.ok()) == r["op"])
+        cfg = GenerationConfig()
+        calls, cases = spy_call(op, cfg, 0)
         print("operation:", r["op"], "recorded:", r.get("impl"))
+        for which, _, kw in calls:
+            print("impl now (default config): factory", which, "fields", list(kw.get("fields") or []), "allow_x00", kw.get("allow_x00"),
+                  "allow_null", kw.get("allow_null"), "codec", kw.get("codec"), "scalars", sorted(kw.get("custom_scalars") or {}))
+        print("model:", drv.one("call", {"op": r["op"], "x00": cfg.allow_x00, "null": cfg.graphql_allow_null, "codec": cfg.codec,
+                                         "extra": list(gql_scalars.get_extra_scalar_strategies()), "custom": list(gql_scalars.CUSTOM_SCALARS)}))
     elif kind == "body":
         print("input:", r["a"], "model:", drv.one("body", r["a"]))
     return 0
